@@ -42,7 +42,7 @@ def main(run: Run):
             shapes += fc.gen_shapes(run, sw, seed=run.seed)
         shapes += fc.gen_shapes(run, "random", num=(400 if thorough else 80), seed=run.seed)
         tr = run.execute("c04", "pkg/packet/bgp", "^TestVerifC04$", shapes, tag="c05-shapes")
-        maxlen = 1200 if thorough else 400
+        maxlen = 800 if thorough else 400
         small, big, seen = [], [], set()
         for t in tr:
             for row in t:
@@ -57,7 +57,7 @@ def main(run: Run):
         rng.shuffle(small)
         rng.shuffle(big)
         big = [m for m in big if len(m["bytes"]) <= 4096]
-        msgs = small[:(220 if thorough else 110)] + big[:(4 if thorough else 1)]
+        msgs = small[:(200 if thorough else 110)] + big[:(3 if thorough else 1)]
         # 2. TLC enumerates (length field x mutation) over the real octets
         muts = gen_mutations(run, msgs)
         # sample per message, so that a message with a thousand NLRI does not crowd out the others
@@ -69,7 +69,7 @@ def main(run: Run):
             none = [m for m in lst if m["mut"]["m"] == "none"]
             rest = [m for m in lst if m["mut"]["m"] != "none"]
             rng.shuffle(rest)
-            cap = (120 if thorough else 60) if len(key[0]) <= maxlen else 25
+            cap = (110 if thorough else 60) if len(key[0]) <= maxlen else 25
             behs += [json.dumps(m) for m in none + rest[:cap]]
         run.extra["mutations_enumerated"] = len(muts)
         run.extra["mutations_executed"] = len(behs)
